@@ -444,8 +444,12 @@ class UserSecurityModel(
         Synchronise the local notion of the remote engine's boots & time with
         the values of an *authenticated* incoming message.
 
-        See :rfc:`3414#section-3.2` (step 7b). The values are only ever moved
-        forward, otherwise replayed old messages could turn back the clock.
+        See :rfc:`3414#section-3.2` (step 7b). A message is only taken into
+        account if it is newer than the newest one received so far
+        ("latestReceivedEngineTime"), otherwise replayed old messages could
+        turn back the clock. It is *not* compared to the locally estimated
+        time: the remote clock may run slower than ours, and the estimate
+        must be corrected downwards as well.
         """
         engine_id = security_params.authoritative_engine_id
         engine_config = self.local_config.get(engine_id)
@@ -456,7 +460,7 @@ class UserSecurityModel(
         known_boots = engine_config["authoritative_engine_boots"]
         if boots > known_boots or (
             boots == known_boots
-            and time > estimated_engine_time(engine_config)
+            and time > engine_config["authoritative_engine_time"]
         ):
             self.set_engine_timing(engine_id, boots, time)
 
